@@ -9604,6 +9604,14 @@ def _write_node(node, xml_tree=None, viewport_transform=None):
             xml_tree.set(key, str(value))
         return xml_tree
 
+    def set_geometry(key, value):
+        """Zero is the default and is not written, but then the value copied from the source
+        attributes (e.g. a percentage that resolved to 0) must not stay either."""
+        if value:
+            xml_tree.set(key, str(value))
+        elif key in xml_tree.attrib:
+            del xml_tree.attrib[key]
+
     if isinstance(node, SVG):
         nested = xml_tree is not None
         if xml_tree is None:
@@ -9614,14 +9622,10 @@ def _write_node(node, xml_tree=None, viewport_transform=None):
             xml_tree.set(SVG_ATTR_XMLNS_EV, SVG_VALUE_XMLNS_EV)
         else:
             xml_tree = subxml(xml_tree, SVG_NAME_TAG)
-        if node.x:
-            xml_tree.set(SVG_ATTR_X, str(node.x))
-        if node.y:
-            xml_tree.set(SVG_ATTR_Y, str(node.y))
-        if node.width:
-            xml_tree.set(SVG_ATTR_WIDTH, str(node.width))
-        if node.height:
-            xml_tree.set(SVG_ATTR_HEIGHT, str(node.height))
+        set_geometry(SVG_ATTR_X, node.x)
+        set_geometry(SVG_ATTR_Y, node.y)
+        set_geometry(SVG_ATTR_WIDTH, node.width)
+        set_geometry(SVG_ATTR_HEIGHT, node.height)
         if node.viewbox:
             xml_tree.set(SVG_ATTR_VIEWBOX, str(node.viewbox))
         vt = None
@@ -9643,22 +9647,15 @@ def _write_node(node, xml_tree=None, viewport_transform=None):
             _write_node(child, xml_tree, vt)
     elif isinstance(node, Ellipse):
         xml_tree = subxml(xml_tree, SVG_TAG_ELLIPSE)
-        if node.cx:
-            xml_tree.set(SVG_ATTR_CENTER_X, str(node.cx))
-        if node.cy:
-            xml_tree.set(SVG_ATTR_CENTER_Y, str(node.cy))
-        if node.rx:
-            xml_tree.set(SVG_ATTR_RADIUS_X, str(node.rx))
-        if node.ry:
-            xml_tree.set(SVG_ATTR_RADIUS_Y, str(node.ry))
+        set_geometry(SVG_ATTR_CENTER_X, node.cx)
+        set_geometry(SVG_ATTR_CENTER_Y, node.cy)
+        set_geometry(SVG_ATTR_RADIUS_X, node.rx)
+        set_geometry(SVG_ATTR_RADIUS_Y, node.ry)
     elif isinstance(node, Circle):
         xml_tree = subxml(xml_tree, SVG_TAG_CIRCLE)
-        if node.cx:
-            xml_tree.set(SVG_ATTR_CENTER_X, str(node.cx))
-        if node.cy:
-            xml_tree.set(SVG_ATTR_CENTER_Y, str(node.cy))
-        if node.rx:
-            xml_tree.set(SVG_ATTR_RADIUS, str(node.rx))
+        set_geometry(SVG_ATTR_CENTER_X, node.cx)
+        set_geometry(SVG_ATTR_CENTER_Y, node.cy)
+        set_geometry(SVG_ATTR_RADIUS, node.rx)
     elif isinstance(node, Image):
         xml_tree = subxml(xml_tree, SVG_TAG_IMAGE)
         from base64 import b64encode
@@ -9671,24 +9668,16 @@ def _write_node(node, xml_tree=None, viewport_transform=None):
                 "xlink:href",
                 f"data:image/png;base64,{b64encode(stream.getvalue()).decode('utf8')}",
             )
-        if node.x:
-            xml_tree.set(SVG_ATTR_X, str(node.x))
-        if node.y:
-            xml_tree.set(SVG_ATTR_Y, str(node.y))
-        if node.width:
-            xml_tree.set(SVG_ATTR_WIDTH, str(node.width))
-        if node.height:
-            xml_tree.set(SVG_ATTR_HEIGHT, str(node.height))
+        set_geometry(SVG_ATTR_X, node.x)
+        set_geometry(SVG_ATTR_Y, node.y)
+        set_geometry(SVG_ATTR_WIDTH, node.width)
+        set_geometry(SVG_ATTR_HEIGHT, node.height)
     elif isinstance(node, SimpleLine):
         xml_tree = subxml(xml_tree, SVG_TAG_LINE)
-        if node.x1:
-            xml_tree.set(SVG_ATTR_X1, str(node.x1))
-        if node.y1:
-            xml_tree.set(SVG_ATTR_Y1, str(node.y1))
-        if node.x2:
-            xml_tree.set(SVG_ATTR_X2, str(node.x2))
-        if node.y2:
-            xml_tree.set(SVG_ATTR_Y2, str(node.y2))
+        set_geometry(SVG_ATTR_X1, node.x1)
+        set_geometry(SVG_ATTR_Y1, node.y1)
+        set_geometry(SVG_ATTR_X2, node.x2)
+        set_geometry(SVG_ATTR_Y2, node.y2)
     elif isinstance(node, Path):
         xml_tree = subxml(xml_tree, SVG_TAG_PATH)
         xml_tree.set(SVG_ATTR_DATA, node.d(transformed=False))
@@ -9706,18 +9695,12 @@ def _write_node(node, xml_tree=None, viewport_transform=None):
         )
     elif isinstance(node, Rect):
         xml_tree = subxml(xml_tree, SVG_TAG_RECT)
-        if node.x:
-            xml_tree.set(SVG_ATTR_X, str(node.x))
-        if node.y:
-            xml_tree.set(SVG_ATTR_Y, str(node.y))
-        if node.rx:
-            xml_tree.set(SVG_ATTR_RADIUS_X, str(node.rx))
-        if node.ry:
-            xml_tree.set(SVG_ATTR_RADIUS_Y, str(node.ry))
-        if node.width:
-            xml_tree.set(SVG_ATTR_WIDTH, str(node.width))
-        if node.height:
-            xml_tree.set(SVG_ATTR_HEIGHT, str(node.height))
+        set_geometry(SVG_ATTR_X, node.x)
+        set_geometry(SVG_ATTR_Y, node.y)
+        set_geometry(SVG_ATTR_RADIUS_X, node.rx)
+        set_geometry(SVG_ATTR_RADIUS_Y, node.ry)
+        set_geometry(SVG_ATTR_WIDTH, node.width)
+        set_geometry(SVG_ATTR_HEIGHT, node.height)
     elif isinstance(node, Text):
         xml_tree = subxml(xml_tree, SVG_TAG_TEXT)
         xml_tree.text = node.text
